@@ -5,7 +5,7 @@ TIER=${1:-quick}
 cd /verif
 for d in seeded/*/; do
   id=$(basename $d); prop=$(python3 -c "import json;print(json.load(open('$d/meta.json'))['breaks_property'])")
-  out=$(bash tools/try_seed.sh $id $prop $TIER 2>&1)
+  out=$(VERIF_NO_FINGERPRINT=1 bash tools/try_seed.sh $id $prop $TIER 2>&1)   # the differential half alone (the fingerprint tie would flag every seed)
   if echo "$out" | grep -q "^VIOLATION property=$prop"; then
     kind=$(echo "$out" | grep "^VIOLATION" | grep -q no-failing-input-found && echo "no-failing-input-found" || echo "failing-input")
     res="detected ($kind)"; det="[\"./check $prop --tier $TIER: $kind\"]"
